@@ -892,7 +892,7 @@ def r12_zip_directory_and_chain(chk):
     for x in nf:
         gs = _g(x, gd)
         in_loop = any(isinstance(a_, (ast.For, ast.While)) for a_ in _ancestors(x, gd))
-        okx = not in_loop and gs in ([], [('not self._members', True)])
+        okx = not in_loop and gs in ([], [('not self._members', True)], [('len(self._members) == 0', True)])
         chk.ob('C14.R12', 'getData/not-found-only-for-an-empty-archive-or-at-the-end %s' % (gs and gs[0][0] or 'end'), okx,
                where(mod, x), 'a not-found error under %s%s: members the archive holds are never returned' %
                (gs, ' inside the variant loop' if in_loop else ''))
